@@ -20,7 +20,7 @@
     item of [items] for the value [a] with the formatter and runs [unambiguous_ws_b]. *)
 From Coq Require Import ZArith List Bool.
 From V Require Import Base.Int Base.IO Base.Utf8 Model.Scan Model.Items Model.Parse
-  Proofs.Utf8 Proofs.Scan Proofs.C13 Proofs.C13Reads Proofs.C13Fmt Proofs.C13Examples Proofs.C13Names Proofs.C13Digits Proofs.C13Safe Proofs.C13Time Proofs.C13OneWay.
+  Proofs.Utf8 Proofs.Scan Proofs.C13 Proofs.C13Reads Proofs.C13Fmt Proofs.C13Examples Proofs.C13Names Proofs.C13Digits Proofs.C13Safe Proofs.C13Time Proofs.C13Date Proofs.C13OneWay.
 From V Require Model.Parsed Model.Format Model.Strftime Model.Time Spec.StrftimeDoc.
 Import ListNotations.
 Open Scope Z_scope.
@@ -189,7 +189,9 @@ Print Assumptions C13_unambiguous_ws_sound.
     (i) that the recognised writes carry the fields of the value (C12's render_item_spec gives the
     printed numbers; not linked here), (ii) that Parsed resolution of those fields returns the value
     (C14's resolve_complete), (iii) RFC2822 / RFC3339 / TimezoneName items are not recognised by
-    [reads_b].  The end-to-end statement is checked by computation on boundary values
+    [reads_b].  Both links are made, at full strength, for two sub-families below: NaiveTime with
+    "%H:%M:%S" (C13_time_hms_roundtrip) and NaiveDate with "%Y-%m-%d" (C13_date_ymd_roundtrip, through
+    C14's completeness theorem).  The end-to-end statement is checked by computation on boundary values
     (C13_roundtrips_hold) and by the correspondence run with the independent judge. *)
 Theorem C13_format_parse_roundtrip_partial : forall a items texts ws p,
   Forall2 (renders a) items texts ->
@@ -230,6 +232,33 @@ Example C13_time_hms_roundtrip_inhabited :
   valid_time (Model.Time.mk_time 86399 1999999999) /\ valid_time (Model.Time.mk_time 2094 26490000).
 Proof. exact time_hms_roundtrip_inhabited. Qed.
 Print Assumptions C13_time_hms_roundtrip_inhabited.
+
+(** ** format_parse_roundtrip at FULL strength for the date-only family "%Y-%m-%d" / %F, linked to
+    C14's field-resolution theorems (completeness of to_naive_date, premise-free since the ISO-week
+    facts are proved): for EVERY NaiveDate -- every year -262143..=262142, with the explicit sign the
+    formatter prints outside 0..=9999 -- parsing the formatted text returns the date itself, through
+    formatter, reader and field resolution.  [repr y o d]: d is the packed word of the valid (year,
+    ordinal) in range (Proofs/C08Sweeps.v). *)
+Theorem C13_date_ymd_roundtrip : forall y o d, Proofs.C08Sweeps.repr y o d ->
+  exists text,
+    Model.Format.write_items (Model.Format.fa_of_date d) YMD_FMT [] = Model.Format.fok text /\
+    (let+ p := parse Model.Parsed.parsed_new text YMD_FMT in pr_of (Model.Parsed.to_naive_date p)) = pok d.
+Proof. exact date_ymd_roundtrip. Qed.
+Print Assumptions C13_date_ymd_roundtrip.
+
+Theorem C13_date_ymd_parse_from_str : forall y o d fmt, Proofs.C08Sweeps.repr y o d -> In fmt ymd_formats ->
+  exists text,
+    Model.Format.delayed_display (Model.Format.fa_of_date d) (Model.Strftime.sf_new fmt) = Model.Format.fok text /\
+    date_parse_from_str text fmt = pok d.
+Proof. exact date_ymd_parse_from_str. Qed.
+Print Assumptions C13_date_ymd_parse_from_str.
+
+Example C13_date_ymd_roundtrip_inhabited :
+  Proofs.C08Sweeps.repr 2014 365 (Proofs.C08Sweeps.mkdate 2014 365) /\
+  Proofs.C08Sweeps.repr (-262143) 1 (Proofs.C08Sweeps.mkdate (-262143) 1) /\
+  Proofs.C08Sweeps.repr 262142 365 (Proofs.C08Sweeps.mkdate 262142 365).
+Proof. exact date_ymd_roundtrip_inhabited. Qed.
+Print Assumptions C13_date_ymd_roundtrip_inhabited.
 
 (* the entry points' lazily driven loops coincide with the loops over the yielded item list *)
 Theorem C13_parse_sf_loop_is_parse_items : forall items fuel p s st, yields st items -> (List.length items < fuel)%nat ->
